@@ -29,3 +29,20 @@ Definition admitted (b : bucket) (t0 : Z) (ts : list Z) : bool := admitted_from 
 
 Definition in_window (s e t : Z) : bool := (s <=? t) && (t <=? e).
 Definition count_in (s e : Z) (ts : list Z) : Z := Z.of_nat (length (filter (in_window s e) ts)).
+
+(* --- the limiter as a scheduler (what a caller of Wait experiences) ---------------------------------------------
+   [wait_until b lvl t0 t]: the earliest tick >= t at which a whole token is available when the level was [lvl] at
+   [t0 <= t] (rate > 0): now if there is one, otherwise after ceil((den - level) / rate) ticks. *)
+Definition wait_until (b : bucket) (lvl t0 t : Z) : Z :=
+  let l := level_at b lvl t0 t in
+  if b_den b <=? l then t else t + (b_den b - l + b_rate b - 1) / b_rate b.
+
+(* records become available at the times [arr] (any order of magnitude, any spacing - "however fast"); the consumer
+   handles them one after the other, each emission preceded by one Wait: the emission times *)
+Fixpoint schedule (b : bucket) (lvl t0 : Z) (arr : list Z) : list Z :=
+  match arr with
+  | [] => []
+  | a :: rest =>
+      let t := wait_until b lvl t0 (Z.max a t0) in
+      t :: schedule b (level_at b lvl t0 t - b_den b) t rest
+  end.
